@@ -25,6 +25,7 @@ import (
 	"time"
 
 	"github.com/gofiber/utils/v2"
+	"github.com/klauspost/compress/zstd"
 	"github.com/valyala/bytebufferpool"
 	"github.com/valyala/fasthttp"
 )
@@ -294,6 +295,21 @@ func (l *limitedBody) Write(p []byte) (int, error) {
 	return len(p), nil
 }
 
+// zstdMaxWindow is the largest window regular encoders announce for a stream of unknown length (8 MiB at level 19)
+const zstdMaxWindow = 8 << 20
+
+// writeUnzstd is fasthttp.WriteUnzstd with a bound on the window. A zstd frame announces the window its decoder
+// allocates before any data arrives: a ten byte body can ask for 128 MiB and more, whatever it decodes to.
+func writeUnzstd(w io.Writer, p []byte, limit int) (int64, error) {
+	zr, err := zstd.NewReader(bytes.NewReader(p), zstd.WithDecoderConcurrency(1),
+		zstd.WithDecoderMaxWindow(uint64(max(limit, zstdMaxWindow))))
+	if err != nil {
+		return 0, err
+	}
+	defer zr.Close()
+	return zr.WriteTo(w)
+}
+
 func (c *DefaultCtx) tryDecodeBodyInOrder(
 	originalBody *[]byte,
 	encodings []string,
@@ -321,7 +337,7 @@ func (c *DefaultCtx) tryDecodeBodyInOrder(
 		case StrDeflate:
 			_, err = fasthttp.WriteInflate(&decoded, c.fasthttp.Request.Body())
 		case StrZstd:
-			_, err = fasthttp.WriteUnzstd(&decoded, c.fasthttp.Request.Body())
+			_, err = writeUnzstd(&decoded, c.fasthttp.Request.Body(), decoded.limit)
 		default:
 			decodesRealized--
 			if len(encodings) == 1 {
